@@ -53,8 +53,8 @@ theorem inv0_qstart {s : Srv} (h : Inv0 s) : Inv0 (step s .qstart) := by
 
 theorem step_qread_eq (s : Srv) (i : Nat) (hi : i < s.nq) (hd : (s.queries i).done = false) :
     step s (.qread i) =
-      { s with queries := setAt s.queries i
-          { (s.queries i) with reads := (s.queries i).reads ++ [(s.insts (s.queries i).inst).gen] } } := by
+      { s with queries := (setAt s.queries i
+          { (s.queries i) with reads := (s.queries i).reads ++ [(s.insts (s.queries i).inst).gen] }) } := by
   simp only [step]; rw [if_pos ⟨hi, hd⟩]
 
 theorem step_qread_skip (s : Srv) (i : Nat) (h : ¬ (i < s.nq ∧ (s.queries i).done = false)) :
@@ -179,14 +179,14 @@ theorem reload_catch_eq {s : Srv} {k : Kind} {o : Outcome} {d : Nat}
       | .timeout => catchupServed s d
       | .missingPath => s
       | .openError => s) := by
-  simp only [reload, hd, hc, ↓reduceIte]
+  cases o <;> simp only [reload, hd, hc, ↓reduceIte]
 
 theorem reload_switch_eq {s : Srv} {k : Kind} {o : Outcome} {d : Nat}
     (hd : s.disk (target s k) = some d) (hc : isCatchup s k = false) :
     reload s k o = (match o with
       | .ok => switchTo s (target s k) d
       | _ => s) := by
-  simp only [reload, hd, hc, Bool.false_eq_true, ↓reduceIte]
+  cases o <;> simp only [reload, hd, hc, Bool.false_eq_true, ↓reduceIte]
 
 /-- what a reload step does, as a case list -/
 theorem reload_cases (s : Srv) (k : Kind) (o : Outcome) :
@@ -358,7 +358,7 @@ theorem inv1_publish {s : Srv} (h : Inv1 s) (p g : Nat) (hf : fwd1 s (.publish p
     simp only [fwd1] at hf
     rw [← e, hd] at hf
     have : d ≤ g := by simpa using hf
-    omega
+    exact Nat.le_trans hle this
   · rw [if_neg e]; exact ⟨d, hd, hle⟩
 
 /-- in-place catch-up of the served instance to what is on disk at its path -/
@@ -627,8 +627,8 @@ theorem quiet_exact (s : Srv) (post : List Step) (hqt : quiet post = true) (n0 :
     · subst e
       by_cases c : j < s.nq ∧ (s.queries j).done = false
       · rw [step_qread_eq s j c.1 c.2]
-        have := ih { s with queries := setAt s.queries j
-            { (s.queries j) with reads := (s.queries j).reads ++ [(s.insts (s.queries j).inst).gen] } }
+        have := ih { s with queries := (setAt s.queries j
+            { (s.queries j) with reads := (s.queries j).reads ++ [(s.insts (s.queries j).inst).gen] }) }
           hrest (by
             intro i hn hi
             show (setAt s.queries j _ i).inst = s.served ∧
@@ -785,6 +785,7 @@ theorem invq_step {s : Srv} (h0 : Inv0 s) (h : InvQ s) (st : Step) (rest : List 
       refine ⟨h.one, ?_⟩
       intro i hi hd
       show ∀ r ∈ (s.queries i).reads, r = (setAt s.insts s.served _ (s.queries i).inst).gen
+      change (s.queries i).done = false at hd
       rcases hqs i hi with h1 | h1
       · rw [hd] at h1; cases h1
       · rw [setAt_other _ _ _ _ h1]; exact h.cur i hi hd
